@@ -33,7 +33,43 @@ fn jstr(s: &str) -> String {
     o
 }
 
+// what the watchdog reports: the stage and the input being evaluated when SIGALRM arrives
+static mut CUR_STAGE: &str = "";
+static mut CUR_INPUT: [u8; 256] = [0; 256];
+static mut CUR_LEN: usize = 0;
+
+extern "C" fn on_alarm(_sig: libc::c_int) {
+    // async-signal-safe: format by hand, write(2), _exit
+    unsafe {
+        let mut buf = [0u8; 700];
+        let mut n = 0;
+        for b in b"\nHANG " {
+            buf[n] = *b;
+            n += 1;
+        }
+        for b in CUR_STAGE.as_bytes() {
+            buf[n] = *b;
+            n += 1;
+        }
+        buf[n] = b' ';
+        n += 1;
+        let hex = b"0123456789abcdef";
+        for i in 0..CUR_LEN {
+            buf[n] = hex[(CUR_INPUT[i] >> 4) as usize];
+            buf[n + 1] = hex[(CUR_INPUT[i] & 15) as usize];
+            n += 2;
+        }
+        buf[n] = b'\n';
+        n += 1;
+        libc::write(1, buf.as_ptr() as *const libc::c_void, n);
+        libc::_exit(4);
+    }
+}
+
 fn guarded<F: FnOnce()>(stage: &'static str, f: F) -> Option<String> {
+    unsafe {
+        CUR_STAGE = stage;
+    }
     v::tick_reset();
     LAST_PANIC.with(|p| p.borrow_mut().clear());
     match panic::catch_unwind(AssertUnwindSafe(f)) {
@@ -107,6 +143,16 @@ fn check_line(s: &str, sh: &mut v::Shell, fails: &mut Vec<String>) {
         let mut l = s.to_string();
         v::extend_bangbang(sh, &mut l);
     }));
+    push(guarded("interactive-line-after-a-command-containing-bangbang", || {
+        // the previous command may itself contain `!!` (quoted, it is recorded verbatim)
+        let keep = sh.previous_cmd.clone();
+        sh.previous_cmd = "p '!!' x!!".to_string();
+        for cand in [s.to_string(), format!("{} !!", s), format!("!!{}", s)] {
+            let mut l = cand;
+            v::extend_bangbang(sh, &mut l);
+        }
+        sh.previous_cmd = keep;
+    }));
     push(guarded("highlight", || {
         let h = v::CicadaHighlighter;
         let _ = h.highlight(s);
@@ -145,6 +191,12 @@ pub fn main(args: &[String]) {
         std::env::set_current_dir(&args[4]).unwrap();
         std::env::set_var("HOME", &args[4]);
     }
+    unsafe {
+        // watchdog for loops that no step counter sees, and a ceiling for runaway allocation
+        libc::signal(libc::SIGALRM, on_alarm as usize);
+        let lim = libc::rlimit { rlim_cur: 8 << 30, rlim_max: 8 << 30 };
+        libc::setrlimit(libc::RLIMIT_AS, &lim);
+    }
     std::env::set_var("PATH", "/nonexistent-bin");
     std::env::set_var("X", "$X");
     std::env::set_var("Y", "$Z");
@@ -176,7 +228,16 @@ pub fn main(args: &[String]) {
                 sample.push(s.clone());
             }
             let mut fails = Vec::new();
+            unsafe {
+                let b = s.as_bytes();
+                CUR_LEN = b.len().min(256);
+                CUR_INPUT[..CUR_LEN].copy_from_slice(&b[..CUR_LEN]);
+                libc::alarm(20);
+            }
             check_line(&s, &mut sh, &mut fails);
+            unsafe {
+                libc::alarm(0);
+            }
             for f in fails {
                 let e = failures.entry(f).or_insert((0, s.clone()));
                 e.0 += 1;
